@@ -31,6 +31,14 @@ class HashV:
         self.algo = algo            # 'Sha256'
         self.text = SBytes.of(text)  # base64 text (may be an Atom('b64', Digest))
 
+    def getf(self, i):
+        # ssri::Hash { algorithm, digest }
+        if i == 0:
+            return algo_value(self.algo)
+        if i == 1:
+            return BufObj("String", self.text)
+        raise Inconclusive("field %d of ssri::Hash" % i)
+
     def __repr__(self):
         return "%s-%r" % (self.algo.lower(), self.text)
 
@@ -49,6 +57,12 @@ class IntegrityV:
 
     def rust_clone(self, I):
         return IntegrityV(list(self.hashes))
+
+    def getf(self, i):
+        # ssri::Integrity { hashes: Vec<Hash> }  (read-only view)
+        if i == 0:
+            return VecObj(self.hashes)
+        raise Inconclusive("field %d of ssri::Integrity" % i)
 
     def rust_eq(self, I, other):
         other = peel(other)
